@@ -57,11 +57,15 @@ InsertMulti(T, env, name, nodes) ==
     THEN [ok |-> FALSE, env |-> env]
     ELSE [ok |-> TRUE, env |-> [env EXCEPT !.multi = Put(env.multi, name, nodes)]]
 
-\* Cow<MetaVarEnv>::match_ellipsis: trailing `skipped` nodes are dropped from the capture
+\* Cow<MetaVarEnv>::match_ellipsis: the anonymous pattern tokens after the ellipsis (`skipped` of them) stand for
+\* trailing anonymous nodes only - at most `skipped` trailing unnamed nodes are dropped from the capture
+RECURSIVE DropTrailing(_, _, _)
+DropTrailing(T, nodes, k) ==
+    IF k > 0 /\ nodes # <<>> /\ ~T[nodes[Len(nodes)]].nm THEN DropTrailing(T, SubSeq(nodes, 1, Len(nodes) - 1), k - 1)
+    ELSE nodes
 AggEllipsis(T, env, mv, nodes, skipped) ==
     IF mv.ty = "multicap"
-    THEN LET keep == IF Len(nodes) >= skipped THEN Len(nodes) - skipped ELSE 0
-         IN InsertMulti(T, env, mv.name, SubSeq(nodes, 1, keep))
+    THEN InsertMulti(T, env, mv.name, DropTrailing(T, nodes, skipped))
     ELSE [ok |-> TRUE, env |-> env]
 
 \* match_leaf_meta_var
@@ -130,6 +134,15 @@ TrivialRun(PT, gs, gi) == IF gi <= Len(gs) /\ IsTrivialGoal(PT[gs[gi]]) THEN 1 +
 Ok(env)   == [ok |-> TRUE, env |-> env]
 Fail(env) == [ok |-> FALSE, env |-> env]
 
+RECURSIVE BindSkipped(_, _, _, _, _)
+BindSkipped(PT, T, gs, gi, env) ==
+    IF gi > Len(gs) THEN Ok(env)
+    ELSE LET p == PT[gs[gi]] IN
+         IF p.ty = "M" /\ p.mv.ty = "multicap"
+         THEN LET a == InsertMulti(T, env, p.mv.name, <<>>) IN
+              IF a.ok THEN BindSkipped(PT, T, gs, gi + 1, a.env) ELSE Fail(a.env)
+         ELSE BindSkipped(PT, T, gs, gi + 1, env)
+
 \* top of the loop of match_nodes_impl_recursive at iterator positions (gi, ci);
 \* invariant at entry: ci <= Len(cs).  Returns [ok, env].
 Loop(PT, T, s, gs, cs, gi, ci, env) ==
@@ -161,7 +174,11 @@ LookAhead(PT, T, s, gs, cs, gi, ci, env, mv, skipped, matched) ==
 \* match_single_node_while_skip_trivial; precondition gi <= Len(gs)
 SkipTrivial(PT, T, s, gs, cs, gi, ci, env) ==
     IF ci > Len(cs) THEN
-        IF AllGoalsSkippable(PT, s, gs, gi) THEN LoopTail(PT, T, s, gs, cs, Len(gs) + 1, ci, env)
+        \* the remaining goals are skipped; a named ellipsis among them captures nothing, which has to agree with
+        \* its other occurrences
+        IF AllGoalsSkippable(PT, s, gs, gi)
+        THEN LET b == BindSkipped(PT, T, gs, gi, env) IN
+             IF b.ok THEN LoopTail(PT, T, s, gs, cs, Len(gs) + 1, ci, b.env) ELSE Fail(b.env)
         ELSE Fail(env)
     ELSE LET m == MatchNode(PT, T, s, gs[gi], cs[ci], env) IN
          CASE m.r = "both"     -> LoopTail(PT, T, s, gs, cs, gi, ci, m.env)
